@@ -48,6 +48,14 @@ theorem struct_keys_distinct :
 theorem variant_names_distinct : types.all (fun t => nodupStrings (liveNames t.variants)) = true := by
   decide +kernel
 
+/-- **witness of the open finding `C19-error-ndshape-unserialisable`**: today's `linfa::Error` has a variant the
+serialiser refuses (`serIndex` = `none`; general form: `Props.C19.skipped_variant_not_serialisable`) — a value of a
+serde type that does not survive a round trip because it cannot even be written.  Replayed on the real code by the
+harness (`#serialise type=linfa::Error variant=NdShape`, `varidx … ser=-`). -/
+theorem error_ndshape_not_serialisable :
+    (types.find? fun t => t.id == "linfa::Error").map (fun t => serIndex "NdShape" t.variants) = some none := by
+  decide +kernel
+
 /-- bridging lemma: a type without excluded members has no skipped field -/
 theorem fields_live_of_skipsOf_nil (t : TypeInfo) (h : skipsOf t = []) :
     t.fields.all (fun f => !f.skip) = true := by
